@@ -2634,7 +2634,7 @@ The parameters of this process are as follows:
   - All pointer instances are dereferenced -- regardless of reference depth (e.g.: **string, *string, etc. become string) -- and then rechecked
   - Stack, Stack-alias, Condition and Condition-alias types utilize their respective `IsEqual` method
   - Structs are compared based on non-private field configuration, field order and underlying values; anonymous (embedded) fields are permitted
-  - Slices and Arrays are compared based on matching capacity (if applicable), length, order and content only; the assertion process does not distinguish between the two types
+  - Slices and Arrays are compared based on length, order and content only; the assertion process does not distinguish between the two types, nor between differently allocated slices
   - Maps are compared based on matching length, keys and values
   - Functions and methods are compared based on their pointer addresses -- or, as a fallback, their respective I/O signatures; this allows distinct closures of like-signatures to qualify
   - Channels, UnsafePointers and Uintptrs are compared as-is
